@@ -174,6 +174,16 @@ func doRead(cfg *ucfg.Config, rd J, ropts []ucfg.Option) (res interface{}) {
 			tag += "," + pol
 		}
 		ft := reflect.TypeOf((*ucfg.Config)(nil))
+		rebrand := strings.HasSuffix(pol, "|rebrand")
+		pol = strings.TrimSuffix(pol, "|rebrand")
+		tag = name
+		if pol != "" {
+			tag += "," + pol
+		}
+		if rebrand {
+			// a type defined from Config (the *common.Config pattern)
+			ft = reflect.TypeOf((*rebrandedCfg)(nil))
+		}
 		if byValue {
 			ft = ft.Elem()
 		}
@@ -185,10 +195,16 @@ func doRead(cfg *ucfg.Config, rd J, ropts []ucfg.Option) (res interface{}) {
 			}
 		}
 		var got *ucfg.Config
+		fv := target.Elem().Field(0)
 		if byValue {
-			got = target.Elem().Field(0).Addr().Interface().(*ucfg.Config)
+			fv = fv.Addr()
+		}
+		if rebrand {
+			if !fv.IsNil() {
+				got = (*ucfg.Config)(fv.Interface().(*rebrandedCfg))
+			}
 		} else {
-			got = target.Elem().Field(0).Interface().(*ucfg.Config)
+			got = fv.Interface().(*ucfg.Config)
 		}
 		if got == nil {
 			return okRes(nil)
@@ -204,6 +220,8 @@ func doRead(cfg *ucfg.Config, rd J, ropts []ucfg.Option) (res interface{}) {
 	}
 	return J{"harness": "unknown read"}
 }
+
+type rebrandedCfg ucfg.Config
 
 func itoa(n int) string {
 	return string(appendInt(nil, n))
